@@ -61,6 +61,7 @@ inductive Obs
   | getnf (k : Nat)              -- Get answered NotFound
   | updok (k : Nat) (v : VId)    -- also Create
   | upderr
+  | updlate (k : Nat) (v : VId)  -- two writers: an Update STORED before the current value was, ANNOUNCED only now
   | delete (k : Nat)             -- the item was deleted: its streams must end
   | ended (i : Nat)              -- stream i ended (without being cancelled)
   | updokbg (k : Nat) (v target : VId)   -- Update accepted, background writes started; `target`: where they end
@@ -147,6 +148,12 @@ def accept (a : Acc) : Obs → Acc × Verdict
     match a.streams.mapM (pushEntry a k (a.curOf k) v) with
     | none => (a, .missingFact)
     | some ss => ({ a.setCur k v with streams := ss }, .ok)
+  | .updlate k v =>
+    -- the overtaken writer of two (held between `store` and `send`, Writers.lean): the register keeps the later
+    -- store, the event reaches every stream of the register now, compared with the later value (sent before it)
+    match a.streams.mapM (pushEntry a k (a.curOf k) v) with
+    | none => (a, .missingFact)
+    | some ss => ({ a with streams := ss }, .ok)
   | .upderr => (a, .ok)
   | .delete k =>
     ({ a.delCur k with streams := a.streams.map fun s => if s.live && s.key = k then { s with ending := true } else s }, .ok)
